@@ -37,9 +37,9 @@ RECURSIVE MSumSeq(_, _)
 MSumSeq(s, k) == IF k = 0 THEN MZero ELSE MAdd(MSumSeq(s, k - 1), s[k])
 
 -----------------------------------------------------------------------------
-\* ---- activations.  cs = [f, a, x0, y0, u]  (u = exp(a x') for sigmoid / softplus, exp(2 a x') for tanh, x' itself for arctan)
+\* ---- activations.  cs = [f, a, x0, y0, u, pw]  (u = exp(a x') for sigmoid / softplus, exp(2 a x') for tanh, x' itself for arctan)
 A == Q(cs.a)
-U == Q(cs.u)
+U == MPow(Q(cs.u), cs.pw)                 \* u = base^pw: deep saturation (u = 10^16) without leaving 32-bit integers
 \* forward values: a rational, or a tagged transcendental plus a rational
 ActFwd == CASE cs.f = "sigmoid" -> [tag |-> "rat", arg |-> MZero, add |-> MAdd(MDiv(U, MAdd(MOne, U)), Q(cs.y0))]
             [] cs.f = "tanh" -> [tag |-> "rat", arg |-> MZero, add |-> MAdd(MDiv(MSub(U, MOne), MAdd(U, MOne)), Q(cs.y0))]
